@@ -5,6 +5,7 @@ import (
 	"slices"
 	"sort"
 
+	"github.com/hknutzen/Netspoc-Approve/go/pkg/errlog"
 	"github.com/pkg/diff/myers"
 )
 
@@ -12,6 +13,8 @@ func diffConfig(a, b *panVsys, vsysPath string) []string {
 	sortMembers(a)
 	sortMembers(b)
 	ab := rulesPairFrom(a, b)
+	ab.a.checkGroupCycle()
+	ab.b.checkGroupCycle()
 	ab.markObjects(b.Rules)
 	ab.genUniqRuleNames()
 	ab.genUniqGroupNames()
@@ -53,6 +56,35 @@ func rulesPairFrom(a, b *panVsys) *rulesPair {
 			sGroups:   sGroupMap(b),
 			services:  serviceMap(b),
 		},
+	}
+}
+
+// Abort if some address-group is directly or indirectly member of itself.
+// Otherwise processing of nested groups would not terminate.
+func (v vsysInfo) checkGroupCycle() {
+	const (
+		visiting = iota + 1
+		done
+	)
+	state := make(map[string]int)
+	var visit func(name string)
+	visit = func(name string) {
+		g := v.groups[name]
+		if g == nil || state[name] == done {
+			return
+		}
+		if state[name] == visiting {
+			errlog.Abort("Address-group %s of %s must not be member of itself",
+				name, v.vsys.Name)
+		}
+		state[name] = visiting
+		for _, m := range g.Members {
+			visit(m)
+		}
+		state[name] = done
+	}
+	for _, g := range v.vsys.AddressGroups {
+		visit(g.Name)
 	}
 }
 
